@@ -28,3 +28,123 @@ META = {
         ],
     },
 }
+
+SIM_IO_STUB = ["the byte sink / byte source (SimWriter / SimReader): scripted accepts, short transfers, EINTR, Ok(0), hard errors, flush failure"]
+
+META["C13"] = {
+    "level": "fault_enumeration",
+    "builds": ["default"],
+    "rule": "per (target, value): a hard failure after exactly k accepted bytes for EVERY k in [0,len] and a flush failure, for each of three sink "
+            "compositions (scripted sink under std write_all; BufWriter::with_capacity(c, sink); sink implementing the library's WriteNoStd directly); "
+            "premature Ok(0) at every (thorough) / sampled (quick) k; serialize_with_schema at every/sampled k; seeded scripts of short writes, EINTR bursts, "
+            "Ok(0), hard errors and flush failures; real kernel sinks (store to /dev/full, into a missing directory, under RLIMIT_FSIZE=k, over a longer file). "
+            "A case is non-trivial when at least one fault (incl. a short write or EINTR) actually fired inside the call; distinct = distinct "
+            "(target, canonical value digest, sink, api, script)",
+    "exhaustive_dimensions": ["failure position k in [0,len] per (target, value, sink composition)", "flush failure per (target, value, sink composition)",
+                              "premature Ok(0) position (thorough tier)"],
+    "sampled_dimensions": ["targets' values (sizes 0, 1, few, <=64; thorough adds ~4 KiB and >8 KiB payloads)", "BufWriter capacity", "short-write / EINTR / mixed scripts",
+                           "RLIMIT_FSIZE cut positions"],
+    "expected_probes": ["fault_in_header_fields", "fault_in_len_or_tag", "fault_in_padding", "fault_in_zero_copy_block", "flush_failure",
+                        "eintr_retried_to_success", "fault_deferred_by_bufwriter"],
+    "real": REAL_COMMON + ["WriterWithPos / SchemaWriter", "Serialize::store on the kernel's file system, /dev/full, RLIMIT_FSIZE (EFBIG)"],
+    "stub": SIM_IO_STUB,
+    "assumptions": [
+        "targets are the registered document types plus serialize-only sources (&[T] of zero-copy and deep items, SerIter, a derived struct over both); "
+        "zero-sized element types and zero-length arrays are outside the universe (DESIGN.md §3)",
+        "a target whose fault-free control serialization fails is skipped and counted under control_failures",
+        "source integrity is judged by the tracking allocator (no block live before the call may be freed or reallocated during it, no invalid/double/"
+        "wrong-layout free, no write into freed memory) and by canonical equality of the source before/after",
+    ],
+}
+
+DOC_ASSUMPTIONS = [
+    "documents are the ~68 registered concrete types (DESIGN.md §3) with seeded values; zero-sized element types, zero-length arrays and exhausted "
+    "inclusive ranges are outside the universe",
+    "a (document, value) whose fault-free controls (serialize, full-copy read, ε-copy read at an aligned address, agreement of the two) fail is skipped and "
+    "counted under control_failures: those are failures of unclaimed round-trip properties",
+    "64-bit little-endian Linux",
+]
+
+META["C14"] = {
+    "level": "fault_enumeration",
+    "builds": ["default"],
+    "rule": "per (document, value): a hard read error after exactly k served bytes and a premature EOF after exactly k bytes for EVERY k in [0,len), through the "
+            "scripted source directly and through BufReader::with_capacity(c, source); fragmentation families (1-byte, primes, fixed 3, 7/1, EINTR before every read) "
+            "and seeded scripts (short reads, EINTR bursts, positional splits, one terminal fault). Non-trivial: at least one fault or short read fired inside "
+            "the call; distinct = distinct (document, canonical value digest, source kind, script)",
+    "exhaustive_dimensions": ["failure position k in [0,len) x {hard error, premature EOF} x {plain source, BufReader} per (document, value)"],
+    "sampled_dimensions": ["documents' values", "BufReader capacity", "fragmentation / EINTR scripts"],
+    "expected_probes": ["fault_in_header_fields", "fault_in_len_or_tag", "fault_in_padding", "fault_in_zero_copy_block", "eintr_retried_to_success",
+                        "fragmented_read_to_success", "failure_through_bufreader"],
+    "real": REAL_COMMON + ["ReaderWithPos, deserialize_full of every registered document"],
+    "stub": SIM_IO_STUB,
+    "assumptions": DOC_ASSUMPTIONS + [
+        "'same value' is canonical equality with the value read from an unfragmented std::io::Cursor over the same bytes",
+        "'without corrupting memory' is judged by the tracking allocator (invalid / double / wrong-layout free, free of a block the call does not own, "
+        "write into freed memory) during the call and when the returned value or error is dropped; a leak on the error path is not a C14 violation",
+    ],
+}
+
+META["C11"] = {
+    "level": "fault_enumeration",
+    "builds": ["default"],
+    "rule": "crash point k = number of durable bytes; per (document, value) EVERY k in [0,len) through deserialize_full on a cursor, deserialize_full on a source "
+            "that ends at k, and deserialize_eps of the prefix placed flush against a PROT_NONE guard page; through load_full and T::mmap(flags) of a real "
+            "truncated file at every k (thorough) or at every write-event boundary +-1 plus 16 seeded cuts (quick). Every case is a fault case; distinct = "
+            "distinct (document, canonical value digest, entry point, k)",
+    "exhaustive_dimensions": ["cut point k in [0,len) per (document, value) for the in-memory entry points (both tiers) and the file entry points (thorough)"],
+    "sampled_dimensions": ["documents' values", "mmap flag set", "file-entry cut points in the quick tier"],
+    "expected_probes": ["cut_in_header_fields", "cut_in_len_or_tag", "cut_in_padding", "cut_in_zero_copy_block", "empty_file", "last_byte_missing"],
+    "real": REAL_COMMON + ["SliceWithPos / ReaderWithPos", "load_full and mmap on real truncated files (kernel file system, mmap-rs)"],
+    "stub": ["the placement of the prefix (arena with guard page)", "the source that reports EOF at k"],
+    "assumptions": DOC_ASSUMPTIONS + [
+        "over-read detection for ε-copy has a slack of < unit bytes when len mod unit != 0 (DESIGN.md §11)",
+        "load_mem / load_mmap zero-extend by design and are excluded by the property itself",
+    ],
+}
+
+META["C10"] = {
+    "level": "fault_enumeration",
+    "builds": ["default"],
+    "rule": "per (document, value): EVERY single-bit flip of the 29 fixed header bytes (232), the byte-reversed cookie, and minor versions (all 65536 for the first "
+            "value of U64, VecString, DeepA; boundary classes {0,1,2,3,255,256,257,32768,65535} (+32 random in thorough) otherwise), each through deserialize_full "
+            "and deserialize_eps, plus file loaders (load_full, load_mem, load_mmap, mmap; sampled in quick, one loader per flip in thorough). Every case is a fault "
+            "case; distinct = distinct (document, canonical value digest, mutation, entry point)",
+    "exhaustive_dimensions": ["single-bit flips of header bytes 0..29 x {deserialize_full, deserialize_eps} per (document, value)", "minor version 0..=65535 for three documents"],
+    "sampled_dimensions": ["documents' values", "which loader / flag set sees which mutation"],
+    "expected_probes": [],
+    "real": REAL_COMMON + ["check_header", "the four loaders on real files"],
+    "stub": ["the stored bytes (header mutation between store and load)"],
+    "assumptions": DOC_ASSUMPTIONS + ["only single-field corruption is judged (the property does not order errors across fields)"],
+}
+
+META["C15"] = {
+    "level": "fault_enumeration",
+    "builds": ["default"],
+    "rule": "per (sum-type-bearing document, value; the first values of a sum-type document are its top-level variants in order): for up to 6 tag positions of the stream "
+            "(taken from the writer-side schema; first, last and a spread), EVERY one-byte tag value 0..=255 or, for word tags, {0..=N+2, 255..257, 2^16, 2^32, 2^32+1, "
+            "2^56, v+256j, v+j*2^32, MAX-1, MAX}, through both deserializers. The set W of tags a family writes is learned by serializing one value per variant. Executed: "
+            "tag == written (must map back to the same canonical value) and tag not in W (must be InvalidTag(tag)); a valid tag of another variant is not executed. "
+            "Non-trivial: a foreign tag was injected; distinct = distinct (document, canonical value digest, tag position, tag value, mode)",
+    "exhaustive_dimensions": ["one-byte tag values 0..=255 per tag position x both deserializers", "top-level variants of Option, nested Option, Bound, ControlFlow, EnumD, E1, E2, E9"],
+    "sampled_dimensions": ["documents' values (which nested variants occur)", "boundary word-tag values"],
+    "expected_probes": ["nested_tag", "top_level_tag", "tag_is_last_byte_of_stream", "word_tag_above_u32"],
+    "real": REAL_COMMON + ["Option / Bound / ControlFlow impls and derive-generated enum (de)serializers"],
+    "stub": ["the stored bytes (tag overwritten between serialize and deserialize)"],
+    "assumptions": DOC_ASSUMPTIONS[:1] + ["tag positions and families are identified from serialize_with_schema rows of the fault-free run; a tag row whose parent type is not one "
+                                          "of the known families is skipped and counted"],
+}
+
+META["C12"] = {
+    "level": "fault_enumeration",
+    "builds": ["default"],
+    "rule": "per (document, value): EVERY base-address residue r in 0..128; expected Ok iff every zero-copy block recorded by the writer (offset, unit) satisfies "
+            "(base+r+offset) mod unit = 0, otherwise AlignmentError; every borrowed part of an Ok result is aligned for its element type and inside the buffer. "
+            "Non-trivial: a placement that is not 16-byte aligned; distinct = distinct (document, canonical value digest, residue)",
+    "exhaustive_dimensions": ["base-address residue 0..128 per (document, value)"],
+    "sampled_dimensions": ["documents' values (which blocks exist: None/Some, empty/non-empty, units 1..32)"],
+    "expected_probes": ["byte_aligned_stream_ok_everywhere", "stream_with_empty_aligned_block_refused"],
+    "real": REAL_COMMON + ["SliceWithPos::align and every ε-copy deserializer"],
+    "stub": ["the placement of the buffer (arena owned by the simulator)"],
+    "assumptions": DOC_ASSUMPTIONS + ["the block list is the writer-side schema of the fault-free run (rows produced by write_bytes), independent of the reader-side check under test"],
+}
